@@ -168,4 +168,21 @@ def belongsTo (d host : Bytes) : Option (Option Bytes) :=
   else if (46 :: d).isSuffixOf h then some (some (h.take (h.length - d.length - 1)))
   else none
 
+/-- a `Host` value is `uri-host [":" port]` (RFC 9110 §7.2). A host that belongs to none of the
+    base domains names a bucket by itself (the CNAME style of the AWS documentation:
+    `Host: static.example.com:8080` addresses the bucket `static.example.com`): the `uri-host`
+    part in lower case — the port is no part of the name. Opinion only for a `uri-host` made of
+    non-empty labels of ASCII letters, digits and `-`, with no port or a decimal port up to 65535;
+    `none` = no opinion. -/
+def cnameBucket (bases : List Bytes) (host : Bytes) : Option Bytes :=
+  if bases.any (fun d => (belongsTo d host).isSome) then none
+  else
+    let name := host.takeWhile (· ≠ 58)
+    let portOk : Bool := match host.dropWhile (· ≠ 58) with
+      | [] => true
+      | _ :: p => !p.isEmpty && p.all isDig && digitsValue p ≤ 65535
+    let nameOk : Bool := (dotGroups name).all fun l =>
+      !l.isEmpty && l.all fun c => isLowerAlnum c || (65 ≤ c.toNat && c.toNat ≤ 90) || c = 45
+    if nameOk && portOk then some (lowerAscii name) else none
+
 end S3V.PathSpec
